@@ -21,9 +21,11 @@ inductive Err
 
 abbrev Res := Except Err
 
-instance {α} [DecidableEq α] : DecidableEq (Res α) := by
-  intro a b
-  cases a <;> cases b <;> simp <;> exact inferInstance
+instance {α} [DecidableEq α] : DecidableEq (Res α)
+  | .ok a, .ok b => if h : a = b then isTrue (by rw [h]) else isFalse (by intro h'; injection h'; contradiction)
+  | .error a, .error b => if h : a = b then isTrue (by rw [h]) else isFalse (by intro h'; injection h'; contradiction)
+  | .ok _, .error _ => isFalse (by intro h; cases h)
+  | .error _, .ok _ => isFalse (by intro h; cases h)
 
 /-- the tables of one codec *as compiled in one build profile*; a codec is a
     `Profile → Codec` (see `Generated/Tables.lean`). -/
